@@ -245,6 +245,9 @@ def run(tier, seed, build=True):
             raise common.MachineryError("harvested only %d entries / %d examples from datetime.rs" % (nentries, len(examples)))
         common.log("[C04] harvested %d documented examples of %d notations" % (len(examples), nentries))
         has_year = {d["index"]: "year?: true" in d["dtfs"] for d in dump}
+        # Unix-epoch notations denote an instant counted in UTC whatever the fallback zone is (the documented tuples say
+        # "local" for them: they were written down on a UTC machine)
+        is_epoch = {d["index"]: 'pattern: "%s' in d["dtfs"] for d in dump}
         # ---- stage A: every documented example, end to end, under two fallback zones
         all_in = os.path.join(work, "spans_all.json")
         json.dump([[ex["entry"], ex["line"]] for ex in examples], open(all_in, "w"))
@@ -278,6 +281,8 @@ def run(tier, seed, build=True):
                     off = text_off
                     if tzarg != "+00:00":
                         continue      # explicit zone in the text: one run suffices
+                elif is_epoch.get(ex["entry"]):
+                    off = 0
                 else:
                     off = consts[ex["tz"]]
                     if off is None:
@@ -313,7 +318,7 @@ def run(tier, seed, build=True):
             got = parse_out(r.out)
             rep = {"engine": "E-CLI", "args": ["--color", "never", "-u", "-d", DTFMT, "-t=" + tzarg, "x.log"], "files": {"x.log": common.b64(ex["line"].encode("utf-8") + b"\n")},
                    "mtime": gen.days_from_civil(ex["t"][0], 6, 30) * 86400}
-            feats = {"stage": "documented-example", "entry": ex["entry"], "fallback_zone_used": consts[ex["tz"]] is None, "pattern_has_year": has_year.get(ex["entry"], True)}
+            feats = {"stage": "documented-example", "entry": ex["entry"], "epoch_notation": bool(is_epoch.get(ex["entry"])), "fallback_zone_used": consts[ex["tz"]] is None, "pattern_has_year": has_year.get(ex["entry"], True)}
             if r.rc not in (0, 1) or r.timed_out:
                 res.violation(dict(feats, symptom="crash"), "documented example of entry %d: rc=%s" % (ex["entry"], r.rc), rep)
             elif not got:
